@@ -1,3 +1,760 @@
+import LachesisVerif.Model.Wlru
+/-!
+# C29 — Weighted LRU caches follow the LRU model
+
+"After every operation, a weighted LRU cache holds no more entries and total weight than
+configured (an entry heavier than the bound is evicted at once), evicts least-recently used entries
+first (gets and re-adds refresh recency, peeks and contains do not), reports each removed entry to
+the eviction callback exactly once, and lists keys from oldest to newest."
+
+Model: `Model.Wlru` (eviction list oldest first, the `normalize` condition and the weight
+subtractions regenerated from the source). All theorems quantify over **all operation sequences**
+from a fresh cache (`run (new mw ms) ops`; an arbitrary sequence includes all its prefixes, so a
+statement about the state after `ops` is a statement about the state after every operation).
+
+Recency is defined against the *history*, not the list: `lastTouch tr k` is the position in the
+observable trace `tr` (operations with their outputs) of the last operation that touched `k` —
+`Add k`, `Get k`, and `ContainsOrAdd`/`PeekOrAdd k` when they report "not found" (they then add);
+`Peek`, `Contains` and the `…OrAdd` hits are not touches.
+
+Interpretation (DESIGN §2.6): `maxSize ≥ 0` (sizes are naturals; the Go loop does not terminate
+for a negative size) and `uint` weight sums do not wrap.
+-/
 namespace C29
-theorem stub : True := trivial
+open Model.Wlru
+
+/-! ## list lemmas -/
+
+theorem sumW_append (a b : List Entry) : sumW (a ++ b) = sumW a + sumW b := by
+  induction a with
+  | nil => simp [sumW]
+  | cons e a ih => simp [sumW, ih]; omega
+
+theorem lookup_none (l : List Entry) (k : Nat) (h : lookup l k = none) : ∀ e ∈ l, e.key ≠ k := by
+  intro e he hk
+  have := List.find?_eq_none.mp h e he
+  simp [hk] at this
+
+theorem lookup_some (l : List Entry) (k : Nat) (e : Entry) (h : lookup l k = some e) : e ∈ l ∧ e.key = k := by
+  refine ⟨List.mem_of_find?_eq_some h, ?_⟩
+  have := List.find?_some h
+  simpa using this
+
+theorem erase_of_none (l : List Entry) (k : Nat) (h : lookup l k = none) : erase l k = l := by
+  unfold erase
+  apply List.filter_eq_self.mpr
+  intro e he
+  simpa using lookup_none l k h e he
+
+theorem mem_erase (l : List Entry) (k : Nat) (e : Entry) : e ∈ erase l k ↔ e ∈ l ∧ e.key ≠ k := by
+  unfold erase; simp
+
+theorem erase_sublist (l : List Entry) (k : Nat) : (erase l k).Sublist l := List.filter_sublist
+
+def NodupKeys (l : List Entry) : Prop := l.Pairwise (fun a b => a.key ≠ b.key)
+
+theorem NodupKeys.sublist {l l' : List Entry} (h : NodupKeys l) (s : l'.Sublist l) : NodupKeys l' :=
+  List.Pairwise.sublist s h
+
+/-- with distinct keys, the entry found under `k` and the rest make up the list -/
+theorem perm_lookup (l : List Entry) (k : Nat) (e : Entry) (hn : NodupKeys l) (h : lookup l k = some e) :
+    l.Perm (e :: erase l k) := by
+  induction l with
+  | nil => simp [lookup] at h
+  | cons x l ih =>
+    have hn' := List.pairwise_cons.mp hn
+    unfold lookup at h
+    rw [List.find?_cons] at h
+    by_cases hx : x.key = k
+    · simp [hx] at h
+      subst h
+      have : erase (x :: l) k = l := by
+        unfold erase
+        rw [List.filter_cons]
+        simp [hx]
+        intro y hy
+        have := hn'.1 y hy
+        rw [hx] at this
+        exact fun h => this h.symm
+      rw [this]
+    · have hx' : (x.key == k) = false := by simpa using hx
+      rw [hx'] at h
+      have e1 : erase (x :: l) k = x :: erase l k := by
+        unfold erase; rw [List.filter_cons]; simp [hx]
+      rw [e1]
+      exact ((ih hn'.2 h).cons x).trans (List.Perm.swap e x _)
+
+theorem sumW_perm {a b : List Entry} (h : a.Perm b) : sumW a = sumW b := by
+  induction h with
+  | nil => rfl
+  | cons x _ ih => simp [sumW, ih]
+  | swap x y l => simp [sumW]; omega
+  | trans _ _ ih1 ih2 => exact ih1.trans ih2
+
+theorem sumW_lookup (l : List Entry) (k : Nat) (e : Entry) (hn : NodupKeys l) (h : lookup l k = some e) :
+    sumW l = e.weight + sumW (erase l k) := by
+  rw [sumW_perm (perm_lookup l k e hn h)]; rfl
+
+theorem weight_le_sumW (l : List Entry) (e : Entry) (h : e ∈ l) : e.weight ≤ sumW l := by
+  induction l with
+  | nil => cases h
+  | cons x l ih =>
+    rcases List.mem_cons.mp h with rfl | h
+    · simp [sumW]
+    · have := ih h; simp [sumW]; omega
+
+/-- the list after the insert/update half of Add has distinct keys -/
+theorem nodup_insert (l : List Entry) (e : Entry) (hn : NodupKeys l) : NodupKeys (erase l e.key ++ [e]) := by
+  unfold NodupKeys
+  rw [List.pairwise_append]
+  refine ⟨hn.sublist (erase_sublist _ _), by simp, ?_⟩
+  intro a ha b hb
+  simp at hb; subst hb
+  exact ((mem_erase _ _ _).mp ha).2
+
+/-! ## the `normalize` loop -/
+
+/-- `normalize` removes a prefix of the (oldest-first) list — the oldest entries, in order — and
+reports exactly that prefix; the weight counter stays the sum of the remaining weights; on exit
+both bounds hold. -/
+theorem evictLoop_spec (mw ms : Nat) : ∀ (l : List Entry) (w : Nat),
+    (evictLoop mw ms l w).2.2 ++ (evictLoop mw ms l w).1 = l ∧
+    (w = sumW l → (evictLoop mw ms l w).2.1 = sumW (evictLoop mw ms l w).1 ∧
+      (evictLoop mw ms l w).2.1 ≤ mw ∧ (evictLoop mw ms l w).1.length ≤ ms) := by
+  intro l
+  induction l with
+  | nil => intro w; simp [evictLoop, sumW]; intro h; omega
+  | cons e rest ih =>
+    intro w
+    unfold evictLoop
+    by_cases hc : Gen.Wlru.normalizeCond w mw (rest.length + 1) ms = true
+    · rw [if_pos hc]
+      have := ih (Gen.Wlru.removeSub w e.weight)
+      refine ⟨by simp [this.1], ?_⟩
+      intro hw
+      apply this.2
+      unfold Gen.Wlru.removeSub; rw [hw]; simp [sumW]
+    · rw [if_neg hc]
+      refine ⟨by simp, ?_⟩
+      intro hw
+      unfold Gen.Wlru.normalizeCond at hc
+      simp at hc
+      show w = sumW (e :: rest) ∧ w ≤ mw ∧ (e :: rest).length ≤ ms
+      exact ⟨hw, by omega, by simp; omega⟩
+
+/-- nothing is evicted needlessly: every eviction happened while a bound was exceeded -/
+theorem evict_only_when_over (mw ms : Nat) : ∀ (l : List Entry) (w : Nat) (a : List Entry) (x : Entry) (b : List Entry),
+    (evictLoop mw ms l w).2.2 = a ++ x :: b →
+    (w - sumW a > mw ∨ l.length - a.length > ms) := by
+  intro l
+  induction l with
+  | nil => intro w a x b h; simp [evictLoop] at h
+  | cons e rest ih =>
+    intro w a x b h
+    unfold evictLoop at h
+    by_cases hc : Gen.Wlru.normalizeCond w mw (rest.length + 1) ms = true
+    · rw [if_pos hc] at h
+      simp only at h
+      cases a with
+      | nil =>
+        unfold Gen.Wlru.normalizeCond at hc
+        simp at hc
+        simp [sumW]; omega
+      | cons a0 a' =>
+        simp at h
+        obtain ⟨rfl, h⟩ := h
+        have := ih _ a' x b h
+        unfold Gen.Wlru.removeSub at this
+        simp [sumW]; omega
+    · rw [if_neg hc] at h; simp at h
+
+/-! ## bounds after every operation -/
+
+/-- well-formed: the counter is the sum of the weights, keys are distinct, both bounds hold -/
+structure Good (c : Cache) : Prop where
+  weight_eq : c.weight = sumW c.items
+  nodup : NodupKeys c.items
+  weight_le : c.weight ≤ c.maxWeight
+  size_le : c.items.length ≤ c.maxSize
+
+theorem good_new (mw ms : Nat) : Good (new mw ms) := ⟨rfl, List.Pairwise.nil, Nat.zero_le _, Nat.zero_le _⟩
+
+theorem good_normalize (c : Cache) (hw : c.weight = sumW c.items) (hn : NodupKeys c.items) : Good (normalize c).1 := by
+  have h := evictLoop_spec c.maxWeight c.maxSize c.items c.weight
+  have h2 := h.2 hw
+  have hs : (evictLoop c.maxWeight c.maxSize c.items c.weight).1.Sublist c.items := by
+    have := List.sublist_append_right (evictLoop c.maxWeight c.maxSize c.items c.weight).2.2
+      (evictLoop c.maxWeight c.maxSize c.items c.weight).1
+    rwa [h.1] at this
+  exact ⟨h2.1, hn.sublist hs, h2.2.1, h2.2.2⟩
+
+theorem inserted_items (c : Cache) (k v w : Nat) : (inserted c k v w).items = erase c.items k ++ [⟨k, v, w⟩] := by
+  unfold inserted
+  cases h : lookup c.items k with
+  | none => show c.items ++ _ = _; rw [erase_of_none _ _ h]
+  | some old => rfl
+
+theorem inserted_bounds (c : Cache) (k v w : Nat) :
+    (inserted c k v w).maxWeight = c.maxWeight ∧ (inserted c k v w).maxSize = c.maxSize := by
+  unfold inserted
+  cases lookup c.items k <;> exact ⟨rfl, rfl⟩
+
+theorem inserted_wf (c : Cache) (k v w : Nat) (g : Good c) :
+    (inserted c k v w).weight = sumW (inserted c k v w).items ∧ NodupKeys (inserted c k v w).items := by
+  refine ⟨?_, by rw [inserted_items]; exact nodup_insert c.items ⟨k, v, w⟩ g.nodup⟩
+  rw [inserted_items, sumW_append]
+  unfold inserted
+  cases h : lookup c.items k with
+  | none =>
+    show c.weight + w = _
+    rw [erase_of_none _ _ h, g.weight_eq]; simp [sumW]
+  | some old =>
+    show Gen.Wlru.readdSub c.weight old.weight + w = _
+    rw [g.weight_eq, sumW_lookup _ _ _ g.nodup h]
+    unfold Gen.Wlru.readdSub; simp [sumW]
+
+theorem good_add (c : Cache) (k v w : Nat) (g : Good c) : Good (add c k v w).1 := by
+  have h := inserted_wf c k v w g
+  exact good_normalize _ h.1 h.2
+
+theorem length_erase_lookup (l : List Entry) (k : Nat) (e : Entry) (hn : NodupKeys l) (h : lookup l k = some e) :
+    (erase l k).length + 1 = l.length := by
+  have := (perm_lookup l k e hn h).length_eq
+  simp at this; omega
+
+theorem good_step (c : Cache) (op : Op) (g : Good c) : Good (step c op).1 := by
+  cases op with
+  | add k v w => exact good_add c k v w g
+  | get k =>
+    show Good (Model.Wlru.get c k).1
+    unfold Model.Wlru.get
+    cases h : lookup c.items k with
+    | none => exact g
+    | some e =>
+      have hk := (lookup_some _ _ _ h).2
+      have hp := perm_lookup _ _ _ g.nodup h
+      refine ⟨?_, ?_, g.weight_le, ?_⟩
+      · show c.weight = sumW (erase c.items k ++ [e])
+        rw [g.weight_eq, sumW_perm hp, sumW_append]; simp [sumW]; omega
+      · have := nodup_insert c.items e g.nodup; rwa [hk] at this
+      · show (erase c.items k ++ [e]).length ≤ c.maxSize
+        rw [List.length_append, List.length_singleton, length_erase_lookup _ _ _ g.nodup h]; exact g.size_le
+  | peek k =>
+    show Good (Model.Wlru.peek c k).1
+    unfold Model.Wlru.peek; cases lookup c.items k <;> exact g
+  | contains k => exact g
+  | containsOrAdd k v w =>
+    show Good (Model.Wlru.containsOrAdd c k v w).1
+    unfold Model.Wlru.containsOrAdd
+    split
+    · exact g
+    · exact good_add c k v w g
+  | peekOrAdd k v w =>
+    show Good (Model.Wlru.peekOrAdd c k v w).1
+    unfold Model.Wlru.peekOrAdd
+    cases lookup c.items k with
+    | none => exact good_add c k v w g
+    | some e => exact g
+  | remove k =>
+    show Good (Model.Wlru.remove c k).1
+    unfold Model.Wlru.remove
+    cases h : lookup c.items k with
+    | none => exact g
+    | some e =>
+      have hs := sumW_lookup _ _ _ g.nodup h
+      have hl := length_erase_lookup _ _ _ g.nodup h
+      have hw := g.weight_eq; have hle := g.weight_le; have hsz := g.size_le
+      refine ⟨?_, g.nodup.sublist (erase_sublist _ _), ?_, ?_⟩
+      · show Gen.Wlru.removeSub c.weight e.weight = sumW (erase c.items k)
+        unfold Gen.Wlru.removeSub; omega
+      · show Gen.Wlru.removeSub c.weight e.weight ≤ c.maxWeight
+        unfold Gen.Wlru.removeSub; omega
+      · show (erase c.items k).length ≤ c.maxSize
+        omega
+  | removeOldest =>
+    show Good (Model.Wlru.removeOldest c).1
+    unfold Model.Wlru.removeOldest
+    have hw := g.weight_eq; have hn := g.nodup; have hs := g.size_le; have hle := g.weight_le
+    cases h : c.items with
+    | nil => exact g
+    | cons e rest =>
+      rw [h] at hw hn hs
+      simp only [sumW, List.length_cons] at hw hs
+      refine ⟨?_, (List.pairwise_cons.mp hn).2, ?_, ?_⟩
+      · show Gen.Wlru.removeSub c.weight e.weight = sumW rest
+        unfold Gen.Wlru.removeSub; omega
+      · show Gen.Wlru.removeSub c.weight e.weight ≤ c.maxWeight
+        unfold Gen.Wlru.removeSub; omega
+      · show rest.length ≤ c.maxSize
+        omega
+  | getOldest =>
+    show Good (Model.Wlru.getOldest c).1
+    unfold Model.Wlru.getOldest; cases c.items <;> exact g
+  | keys => exact g
+  | len => exact g
+  | total => exact g
+  | resize mw ms => exact good_normalize _ g.weight_eq g.nodup
+  | purge ord =>
+    have hw := g.weight_eq
+    refine ⟨?_, List.Pairwise.nil, ?_, Nat.zero_le _⟩
+    · show c.weight - sumW c.items = sumW []
+      simp only [sumW]; omega
+    · show c.weight - sumW c.items ≤ c.maxWeight
+      omega
+
+theorem good_run (c : Cache) (ops : List Op) (g : Good c) : Good (run c ops).1 := by
+  induction ops generalizing c with
+  | nil => exact g
+  | cons op ops ih => exact ih _ (good_step c op g)
+
+/-- **Bounds after every operation**: after any sequence of operations on a fresh cache, the number
+of entries is at most `maxSize`, the weight counter is at most `maxWeight` (the bounds in force,
+i.e. those of the last `Resize`), the counter equals the sum of the entry weights, and keys are
+distinct. -/
+theorem bounds_after_every_op (mw ms : Nat) (ops : List Op) :
+    let c := (run (new mw ms) ops).1
+    c.items.length ≤ c.maxSize ∧ c.weight ≤ c.maxWeight ∧ c.weight = sumW c.items ∧ NodupKeys c.items :=
+  let g := good_run _ ops (good_new mw ms)
+  ⟨g.size_le, g.weight_le, g.weight_eq, g.nodup⟩
+
+/-! ## eviction order against the history of touches -/
+
+/-- the key an operation touches, read off the observable (operation, output) pair -/
+def touched : Op → Out → Option Nat
+  | .add k _ _, _ => some k
+  | .get k, _ => some k
+  | .containsOrAdd k _ _, o => if o.ok then none else some k
+  | .peekOrAdd k _ _, o => if o.ok then none else some k
+  | _, _ => none
+
+def upd (f : Nat → Nat) (k t : Nat) : Nat → Nat := fun x => if x = k then t else f x
+
+def touchStep (t : Nat) (f : Nat → Nat) (x : Op × Out) : Nat → Nat :=
+  match touched x.1 x.2 with
+  | some k => upd f k (t + 1)
+  | none => f
+
+/-- last-touch map after a trace that starts at clock `t` with map `f` -/
+def touches : Nat → (Nat → Nat) → List (Op × Out) → (Nat → Nat)
+  | _, f, [] => f
+  | t, f, x :: rest => touches (t + 1) (touchStep t f x) rest
+
+/-- position (1-based) in the trace of the last operation that touched `k`; 0 = never -/
+def lastTouch (tr : List (Op × Out)) (k : Nat) : Nat := touches 0 (fun _ => 0) tr k
+
+theorem touches_append (t : Nat) (f : Nat → Nat) (a : List (Op × Out)) (x : Op × Out) :
+    touches t f (a ++ [x]) = touchStep (t + a.length) (touches t f a) x := by
+  induction a generalizing t f with
+  | nil => rfl
+  | cons y a ih =>
+    show touches (t + 1) (touchStep t f y) (a ++ [x]) = _
+    rw [ih]
+    show _ = touchStep (t + (a.length + 1)) (touches (t + 1) (touchStep t f y) a) x
+    rw [Nat.add_assoc, Nat.add_comm 1]
+
+/-- the list is in strictly ascending last-touch order -/
+def LruSorted (f : Nat → Nat) (l : List Entry) : Prop := l.Pairwise (fun a b => f a.key < f b.key)
+
+/-- operations that remove entries only through `normalize` / `removeOldest` (LRU eviction);
+`Remove k` takes out the named key and `Purge` everything, in map order -/
+def isLruOp : Op → Bool
+  | .remove _ => false
+  | .purge _ => false
+  | _ => true
+
+theorem sorted_touch (f : Nat → Nat) (t : Nat) (l : List Entry) (e : Entry)
+    (hs : LruSorted f l) (hb : ∀ x ∈ l, f x.key ≤ t) :
+    LruSorted (upd f e.key (t + 1)) (erase l e.key ++ [e]) ∧
+    ∀ x ∈ erase l e.key ++ [e], upd f e.key (t + 1) x.key ≤ t + 1 := by
+  have hf : ∀ x ∈ erase l e.key, upd f e.key (t + 1) x.key = f x.key := by
+    intro x hx
+    have := ((mem_erase _ _ _).mp hx).2
+    simp [upd, this]
+  have he : upd f e.key (t + 1) e.key = t + 1 := by simp [upd]
+  constructor
+  · unfold LruSorted
+    rw [List.pairwise_append]
+    refine ⟨?_, by simp, ?_⟩
+    · have h1 : LruSorted f (erase l e.key) := List.Pairwise.sublist (erase_sublist _ _) hs
+      unfold LruSorted at h1
+      refine List.Pairwise.imp_of_mem ?_ h1
+      intro a b ha hb' hab
+      rw [hf a ha, hf b hb']; exact hab
+    · intro a ha b hb'
+      simp at hb'; subst hb'
+      rw [hf a ha, he]
+      have := hb a ((mem_erase _ _ _).mp ha).1
+      omega
+  · intro x hx
+    rcases List.mem_append.mp hx with hx | hx
+    · rw [hf x hx]; have := hb x ((mem_erase _ _ _).mp hx).1; omega
+    · simp at hx; subst hx; rw [he]; exact Nat.le_refl _
+
+theorem sorted_mono (f : Nat → Nat) (t : Nat) (l l' : List Entry) (hs : LruSorted f l) (hb : ∀ x ∈ l, f x.key ≤ t)
+    (sub : l'.Sublist l) : LruSorted f l' ∧ ∀ x ∈ l', f x.key ≤ t + 1 :=
+  ⟨List.Pairwise.sublist sub hs, fun x hx => Nat.le_succ_of_le (hb x (sub.subset hx))⟩
+
+/-- touching a key that is not in the list changes nothing for the list -/
+theorem sorted_upd_absent (f : Nat → Nat) (k t' : Nat) (l : List Entry) (hk : ∀ e ∈ l, e.key ≠ k) (hs : LruSorted f l) :
+    LruSorted (upd f k t') l ∧ ∀ x ∈ l, upd f k t' x.key = f x.key := by
+  have hf : ∀ x ∈ l, upd f k t' x.key = f x.key := by
+    intro x hx; simp [upd, hk x hx]
+  refine ⟨?_, hf⟩
+  unfold LruSorted at *
+  refine List.Pairwise.imp_of_mem ?_ hs
+  intro a b ha hb hab
+  rw [hf a ha, hf b hb]; exact hab
+
+theorem normalize_split (c : Cache) : (normalize c).2 ++ (normalize c).1.items = c.items :=
+  (evictLoop_spec c.maxWeight c.maxSize c.items c.weight).1
+
+theorem add_split (c : Cache) (k v w : Nat) :
+    (add c k v w).2.cb ++ (add c k v w).1.items = erase c.items k ++ [⟨k, v, w⟩] := by
+  have := normalize_split (inserted c k v w)
+  rw [inserted_items] at this
+  exact this
+
+theorem removeOldest_spec (c : Cache) :
+    (removeOldest c).2.cb ++ (removeOldest c).1.items = c.items ∧ (removeOldest c).1.items.Sublist c.items := by
+  unfold removeOldest
+  split
+  next e rest h => rw [h]; exact ⟨rfl, List.sublist_cons_self _ _⟩
+  next h => rw [h]; exact ⟨rfl, List.Sublist.refl _⟩
+
+theorem getOldest_spec (c : Cache) : (getOldest c).1 = c ∧ (getOldest c).2.cb = [] := by
+  unfold getOldest
+  split <;> exact ⟨rfl, rfl⟩
+
+/-- the invariant step: sortedness by last touch is kept by every operation, and for the LRU
+operations the reported entries followed by the remaining ones are sorted too -/
+theorem step_lru (c : Cache) (f : Nat → Nat) (t : Nat) (op : Op)
+    (hs : LruSorted f c.items) (hb : ∀ e ∈ c.items, f e.key ≤ t) :
+    (isLruOp op = true → LruSorted (touchStep t f (op, (step c op).2)) ((step c op).2.cb ++ (step c op).1.items)) ∧
+    LruSorted (touchStep t f (op, (step c op).2)) (step c op).1.items ∧
+    (∀ e ∈ (step c op).1.items, touchStep t f (op, (step c op).2) e.key ≤ t + 1) := by
+  -- an operation that touches nothing and leaves a sublist
+  have plain : ∀ (r : Cache × Out), touched op r.2 = none → r.1.items.Sublist c.items →
+      (r.2.cb ++ r.1.items = c.items ∨ isLruOp op = false) →
+      (isLruOp op = true → LruSorted (touchStep t f (op, r.2)) (r.2.cb ++ r.1.items)) ∧
+      LruSorted (touchStep t f (op, r.2)) r.1.items ∧ (∀ e ∈ r.1.items, touchStep t f (op, r.2) e.key ≤ t + 1) := by
+    intro r ht sub hcb
+    have e1 : touchStep t f (op, r.2) = f := by unfold touchStep; simp only; rw [ht]
+    rw [e1]
+    have := sorted_mono f t _ _ hs hb sub
+    refine ⟨?_, this.1, this.2⟩
+    intro hl
+    rcases hcb with h | h
+    · rw [h]; exact hs
+    · rw [h] at hl; cases hl
+  -- an Add (also through ContainsOrAdd / PeekOrAdd on a miss)
+  have adding : ∀ (k v w : Nat) (o : Out), touched op o = some k →
+      LruSorted (touchStep t f (op, o)) ((add c k v w).2.cb ++ (add c k v w).1.items) ∧
+      LruSorted (touchStep t f (op, o)) (add c k v w).1.items ∧
+      (∀ e ∈ (add c k v w).1.items, touchStep t f (op, o) e.key ≤ t + 1) := by
+    intro k v w o ht
+    have e1 : touchStep t f (op, o) = upd f k (t + 1) := by unfold touchStep; simp only; rw [ht]
+    rw [e1]
+    have h := sorted_touch f t c.items ⟨k, v, w⟩ hs hb
+    have sp := add_split c k v w
+    rw [sp]
+    refine ⟨h.1, ?_, ?_⟩
+    · exact List.Pairwise.sublist (by rw [← sp]; exact List.sublist_append_right _ _) h.1
+    · intro e he
+      exact h.2 e (by rw [← sp]; exact List.mem_append_right _ he)
+  cases op with
+  | add k v w =>
+    have := adding k v w (add c k v w).2 rfl
+    exact ⟨fun _ => this.1, this.2⟩
+  | get k =>
+    show (_ → LruSorted (touchStep t f (_, (Model.Wlru.get c k).2)) ((Model.Wlru.get c k).2.cb ++ (Model.Wlru.get c k).1.items)) ∧
+      LruSorted (touchStep t f (_, (Model.Wlru.get c k).2)) (Model.Wlru.get c k).1.items ∧
+      ∀ e ∈ (Model.Wlru.get c k).1.items, touchStep t f (_, (Model.Wlru.get c k).2) e.key ≤ t + 1
+    have e1 : ∀ o, touchStep t f (Op.get k, o) = upd f k (t + 1) := fun o => rfl
+    simp only [e1]
+    unfold Model.Wlru.get
+    cases h : lookup c.items k with
+    | none =>
+      have ha := sorted_upd_absent f k (t + 1) c.items (lookup_none _ _ h) hs
+      refine ⟨fun _ => ha.1, ha.1, ?_⟩
+      intro e he
+      show upd f k (t + 1) e.key ≤ t + 1
+      rw [ha.2 e he]; exact Nat.le_succ_of_le (hb e he)
+    | some e =>
+      have hk := (lookup_some _ _ _ h).2
+      have := sorted_touch f t c.items e hs hb
+      rw [hk] at this
+      exact ⟨fun _ => this.1, this.1, this.2⟩
+  | peek k =>
+    apply plain (step c (.peek k)) rfl
+    · show (Model.Wlru.peek c k).1.items.Sublist c.items
+      unfold Model.Wlru.peek; cases lookup c.items k <;> exact List.Sublist.refl _
+    · left
+      show (Model.Wlru.peek c k).2.cb ++ (Model.Wlru.peek c k).1.items = c.items
+      unfold Model.Wlru.peek; cases lookup c.items k <;> rfl
+  | contains k => exact plain (step c (.contains k)) rfl (List.Sublist.refl _) (Or.inl rfl)
+  | containsOrAdd k v w =>
+    show (_ → LruSorted (touchStep t f (_, (Model.Wlru.containsOrAdd c k v w).2)) ((Model.Wlru.containsOrAdd c k v w).2.cb ++ (Model.Wlru.containsOrAdd c k v w).1.items)) ∧
+      LruSorted (touchStep t f (_, (Model.Wlru.containsOrAdd c k v w).2)) (Model.Wlru.containsOrAdd c k v w).1.items ∧
+      ∀ e ∈ (Model.Wlru.containsOrAdd c k v w).1.items, touchStep t f (_, (Model.Wlru.containsOrAdd c k v w).2) e.key ≤ t + 1
+    unfold Model.Wlru.containsOrAdd
+    split
+    · exact plain (c, { ok := true, vals := [0] }) rfl (List.Sublist.refl _) (Or.inl rfl)
+    · have := adding k v w { (add c k v w).2 with ok := false } rfl
+      exact ⟨fun _ => this.1, this.2⟩
+  | peekOrAdd k v w =>
+    show (_ → LruSorted (touchStep t f (_, (Model.Wlru.peekOrAdd c k v w).2)) ((Model.Wlru.peekOrAdd c k v w).2.cb ++ (Model.Wlru.peekOrAdd c k v w).1.items)) ∧
+      LruSorted (touchStep t f (_, (Model.Wlru.peekOrAdd c k v w).2)) (Model.Wlru.peekOrAdd c k v w).1.items ∧
+      ∀ e ∈ (Model.Wlru.peekOrAdd c k v w).1.items, touchStep t f (_, (Model.Wlru.peekOrAdd c k v w).2) e.key ≤ t + 1
+    unfold Model.Wlru.peekOrAdd
+    cases lookup c.items k with
+    | some e => exact plain (c, { ok := true, vals := [e.val, 0] }) rfl (List.Sublist.refl _) (Or.inl rfl)
+    | none =>
+      have := adding k v w { ok := false, vals := 0 :: (add c k v w).2.vals, cb := (add c k v w).2.cb } rfl
+      exact ⟨fun _ => this.1, this.2⟩
+  | remove k =>
+    apply plain (step c (.remove k)) rfl
+    · show (Model.Wlru.remove c k).1.items.Sublist c.items
+      unfold Model.Wlru.remove; cases lookup c.items k
+      · exact List.Sublist.refl _
+      · exact erase_sublist _ _
+    · exact Or.inr rfl
+  | removeOldest =>
+    exact plain (step c .removeOldest) rfl (removeOldest_spec c).2 (Or.inl (removeOldest_spec c).1)
+  | getOldest =>
+    apply plain (step c .getOldest) rfl
+    · show (Model.Wlru.getOldest c).1.items.Sublist c.items
+      rw [(getOldest_spec c).1]; exact List.Sublist.refl _
+    · left
+      show (Model.Wlru.getOldest c).2.cb ++ (Model.Wlru.getOldest c).1.items = c.items
+      rw [(getOldest_spec c).1, (getOldest_spec c).2]; rfl
+  | keys => exact plain (step c .keys) rfl (List.Sublist.refl _) (Or.inl rfl)
+  | len => exact plain (step c .len) rfl (List.Sublist.refl _) (Or.inl rfl)
+  | total => exact plain (step c .total) rfl (List.Sublist.refl _) (Or.inl rfl)
+  | resize mw ms =>
+    have sp := normalize_split { c with maxWeight := mw, maxSize := ms }
+    apply plain (step c (.resize mw ms)) rfl
+    · show (normalize { c with maxWeight := mw, maxSize := ms }).1.items.Sublist c.items
+      have := List.sublist_append_right (normalize { c with maxWeight := mw, maxSize := ms }).2
+        (normalize { c with maxWeight := mw, maxSize := ms }).1.items
+      rwa [sp] at this
+    · exact Or.inl sp
+  | purge ord =>
+    exact plain (step c (.purge ord)) rfl (List.nil_sublist _) (Or.inr rfl)
+
+theorem run_trace_length (c : Cache) (ops : List Op) : (run c ops).2.length = ops.length := by
+  induction ops generalizing c with
+  | nil => rfl
+  | cons op ops ih => show ((run _ ops).2.length + 1 = _); rw [ih]; rfl
+
+theorem run_lru (c : Cache) (f : Nat → Nat) (t : Nat) (ops : List Op)
+    (hs : LruSorted f c.items) (hb : ∀ e ∈ c.items, f e.key ≤ t) :
+    LruSorted (touches t f (run c ops).2) (run c ops).1.items ∧
+    ∀ e ∈ (run c ops).1.items, touches t f (run c ops).2 e.key ≤ t + ops.length := by
+  induction ops generalizing c f t with
+  | nil => exact ⟨hs, hb⟩
+  | cons op ops ih =>
+    have h := step_lru c f t op hs hb
+    have := ih (step c op).1 (touchStep t f (op, (step c op).2)) (t + 1) h.2.1 h.2.2
+    refine ⟨this.1, ?_⟩
+    intro e he
+    have := this.2 e he
+    simp only [List.length_cons]
+    show touches (t + 1) _ _ e.key ≤ _
+    omega
+
+/-- **Eviction order = least recently touched first, against the history.** For every operation
+sequence `pre` on a fresh cache and every next operation other than `Remove`/`Purge`: the entries
+reported to the eviction callback by that operation, in callback order, followed by the entries
+that remain, oldest first, are in strictly ascending order of their last touch in the history
+(including the current operation). Hence every evicted entry was touched less recently than every
+entry that stays, and evictions happen in least-recently-touched order. -/
+theorem evicts_lru_first (mw ms : Nat) (pre : List Op) (op : Op) (hl : isLruOp op = true) :
+    let r0 := run (new mw ms) pre
+    let r := step r0.1 op
+    let tr := r0.2 ++ [(op, r.2)]
+    (r.2.cb ++ r.1.items).Pairwise (fun a b => lastTouch tr a.key < lastTouch tr b.key) := by
+  intro r0 r tr
+  have h0 := run_lru (new mw ms) (fun _ => 0) 0 pre List.Pairwise.nil (by intro e he; cases he)
+  have h := (step_lru r0.1 _ _ op h0.1 h0.2).1 hl
+  have e : (fun k => lastTouch tr k) = touchStep (0 + pre.length) (touches 0 (fun _ => 0) r0.2) (op, r.2) := by
+    funext k
+    show touches 0 _ (r0.2 ++ [(op, r.2)]) k = _
+    rw [touches_append, run_trace_length]
+  unfold LruSorted at h
+  rw [← e] at h
+  exact h
+
+/-- the same invariant for the cache contents alone, after any sequence (also after `Remove` and
+`Purge`): the list is in strictly ascending last-touch order -/
+theorem items_sorted_by_history (mw ms : Nat) (ops : List Op) :
+    let r := run (new mw ms) ops
+    r.1.items.Pairwise (fun a b => lastTouch r.2 a.key < lastTouch r.2 b.key) :=
+  (run_lru (new mw ms) (fun _ => 0) 0 ops List.Pairwise.nil (by intro e he; cases he)).1
+
+/-- **Keys lists oldest to newest**: after any operation sequence, the result of `Keys()` is in
+strictly ascending order of last touch in the history. -/
+theorem keys_oldest_to_newest (mw ms : Nat) (ops : List Op) :
+    let r := run (new mw ms) ops
+    (step r.1 .keys).2.vals.Pairwise (fun a b => lastTouch r.2 a < lastTouch r.2 b) := by
+  intro r
+  show (r.1.items.map (·.key)).Pairwise _
+  rw [List.pairwise_map]
+  exact items_sorted_by_history mw ms ops
+
+/-! ## eviction callback: every removed entry exactly once -/
+
+/-- the entry an operation puts into the cache (new or replacing the one under the same key) -/
+def added (c : Cache) : Op → Option Entry
+  | .add k v w => some ⟨k, v, w⟩
+  | .containsOrAdd k v w => if (lookup c.items k).isSome then none else some ⟨k, v, w⟩
+  | .peekOrAdd k v w => if (lookup c.items k).isSome then none else some ⟨k, v, w⟩
+  | _ => none
+
+/-- the entries in play during an operation: the old contents, with the added entry in place of
+the one it replaces -/
+def inPlay (c : Cache) (op : Op) : List Entry :=
+  match added c op with
+  | some e => e :: erase c.items e.key
+  | none => c.items
+
+theorem purgeOrder_perm (ord : List Nat) : ∀ (l : List Entry), NodupKeys l → (purgeOrder l ord).Perm l := by
+  induction ord with
+  | nil => intro l _; exact List.Perm.refl _
+  | cons k ord ih =>
+    intro l hn
+    unfold purgeOrder
+    cases h : lookup l k with
+    | none => exact ih l hn
+    | some e =>
+      exact ((ih (erase l k) (hn.sublist (erase_sublist _ _))).cons e).trans (perm_lookup l k e hn h).symm
+
+theorem add_perm (c : Cache) (k v w : Nat) :
+    ((add c k v w).2.cb ++ (add c k v w).1.items).Perm (⟨k, v, w⟩ :: erase c.items k) := by
+  rw [add_split]
+  exact List.perm_append_comm
+
+theorem callback_step (c : Cache) (op : Op) (hn : NodupKeys c.items) :
+    ((step c op).2.cb ++ (step c op).1.items).Perm (inPlay c op) := by
+  cases op with
+  | add k v w => exact add_perm c k v w
+  | get k =>
+    show ((Model.Wlru.get c k).2.cb ++ (Model.Wlru.get c k).1.items).Perm c.items
+    unfold Model.Wlru.get
+    cases h : lookup c.items k with
+    | none => exact List.Perm.refl _
+    | some e =>
+      show ([] ++ (erase c.items k ++ [e])).Perm c.items
+      rw [List.nil_append]
+      exact (List.perm_append_comm.trans (perm_lookup _ _ _ hn h).symm)
+  | peek k =>
+    show ((Model.Wlru.peek c k).2.cb ++ (Model.Wlru.peek c k).1.items).Perm c.items
+    unfold Model.Wlru.peek; cases lookup c.items k <;> exact List.Perm.refl _
+  | contains k => exact List.Perm.refl _
+  | containsOrAdd k v w =>
+    show ((Model.Wlru.containsOrAdd c k v w).2.cb ++ (Model.Wlru.containsOrAdd c k v w).1.items).Perm
+      (match (if (lookup c.items k).isSome then none else some (Entry.mk k v w)) with
+       | some e => e :: erase c.items e.key | none => c.items)
+    unfold Model.Wlru.containsOrAdd
+    split
+    · exact List.Perm.refl _
+    · exact add_perm c k v w
+  | peekOrAdd k v w =>
+    show ((Model.Wlru.peekOrAdd c k v w).2.cb ++ (Model.Wlru.peekOrAdd c k v w).1.items).Perm
+      (match (if (lookup c.items k).isSome then none else some (Entry.mk k v w)) with
+       | some e => e :: erase c.items e.key | none => c.items)
+    unfold Model.Wlru.peekOrAdd
+    cases lookup c.items k with
+    | some e => exact List.Perm.refl _
+    | none => exact add_perm c k v w
+  | remove k =>
+    show ((Model.Wlru.remove c k).2.cb ++ (Model.Wlru.remove c k).1.items).Perm c.items
+    unfold Model.Wlru.remove
+    cases h : lookup c.items k with
+    | none => exact List.Perm.refl _
+    | some e => exact (perm_lookup _ _ _ hn h).symm
+  | removeOldest =>
+    show ((Model.Wlru.removeOldest c).2.cb ++ (Model.Wlru.removeOldest c).1.items).Perm c.items
+    rw [(removeOldest_spec c).1]
+  | getOldest =>
+    show ((Model.Wlru.getOldest c).2.cb ++ (Model.Wlru.getOldest c).1.items).Perm c.items
+    rw [(getOldest_spec c).1, (getOldest_spec c).2]; exact List.Perm.refl _
+  | keys => exact List.Perm.refl _
+  | len => exact List.Perm.refl _
+  | total => exact List.Perm.refl _
+  | resize mw ms =>
+    show ((normalize { c with maxWeight := mw, maxSize := ms }).2 ++ (normalize { c with maxWeight := mw, maxSize := ms }).1.items).Perm c.items
+    rw [normalize_split]
+  | purge ord =>
+    show (purgeOrder c.items ord ++ []).Perm c.items
+    rw [List.append_nil]
+    exact purgeOrder_perm ord c.items hn
+
+/-- **Every removed entry is reported to the eviction callback exactly once.** For every operation
+sequence and every next operation (with any map iteration order for `Purge`): the entries reported
+by the operation together with the entries still in the cache are, as a multiset, exactly the
+entries in play (old contents, the added/updated entry in place of the one it replaces). Keys in
+play are distinct, so no entry is reported twice, none that stays is reported, and none that
+disappears goes unreported. -/
+theorem evict_callback_once (mw ms : Nat) (pre : List Op) (op : Op) :
+    let c := (run (new mw ms) pre).1
+    ((step c op).2.cb ++ (step c op).1.items).Perm (inPlay c op) ∧ NodupKeys (inPlay c op) := by
+  intro c
+  have g := good_run _ pre (good_new mw ms)
+  refine ⟨callback_step c op g.nodup, ?_⟩
+  unfold inPlay
+  cases h : added c op with
+  | none => exact g.nodup
+  | some e =>
+    show NodupKeys (e :: erase c.items e.key)
+    exact List.pairwise_cons.mpr ⟨fun x hx => fun h => ((mem_erase _ _ _).mp hx).2 h.symm,
+      g.nodup.sublist (erase_sublist _ _)⟩
+
+/-! ## an entry heavier than the bound is evicted at once -/
+
+/-- **Heavy entries**: after any operation sequence, `Add k v w` with `w` above the weight bound
+leaves `k` out of the cache and reports exactly the new entry `(k, v)` among the evicted ones
+(the same holds for `ContainsOrAdd` / `PeekOrAdd` on a miss, which call `Add`). -/
+theorem heavy_entry_evicted_at_once (mw ms : Nat) (pre : List Op) (k v w : Nat) :
+    let c := (run (new mw ms) pre).1
+    w > c.maxWeight → (∀ e ∈ (add c k v w).1.items, e.key ≠ k) ∧ ⟨k, v, w⟩ ∈ (add c k v w).2.cb := by
+  intro c hw
+  have g := good_run _ pre (good_new mw ms)
+  have ga := good_add c k v w g
+  have sp := add_split c k v w
+  have hmw : (add c k v w).1.maxWeight = c.maxWeight := (inserted_bounds c k v w).1
+  have hnot : ∀ e ∈ (add c k v w).1.items, e.key ≠ k := by
+    intro e he hk
+    have hmem : e ∈ erase c.items k ++ [⟨k, v, w⟩] := by rw [← sp]; exact List.mem_append_right _ he
+    have : e = ⟨k, v, w⟩ := by
+      rcases List.mem_append.mp hmem with h | h
+      · exact absurd hk ((mem_erase _ _ _).mp h).2
+      · simpa using h
+    have h1 := weight_le_sumW _ _ he
+    have h2 := ga.weight_eq
+    have h3 := ga.weight_le
+    rw [this] at h1
+    simp only at h1
+    omega
+  refine ⟨hnot, ?_⟩
+  have hmem : (⟨k, v, w⟩ : Entry) ∈ (add c k v w).2.cb ++ (add c k v w).1.items := by rw [sp]; simp
+  rcases List.mem_append.mp hmem with h | h
+  · exact h
+  · exact absurd rfl (hnot _ h)
+
+/-! ## non-vacuity -/
+
+/-- a concrete run: size bound 2; `Get 1` refreshes key 1, so adding key 3 evicts key 2 -/
+example : ((run (new 10 2) [.add 1 10 1, .add 2 20 1, .get 1, .add 3 30 1]).2.map (fun x => x.2.cb)) =
+    [[], [], [], [⟨2, 20, 1⟩]] := by decide
+
+/-- `Peek` does not refresh: the same run with `Peek 1` evicts key 1 -/
+example : ((run (new 10 2) [.add 1 10 1, .add 2 20 1, .peek 1, .add 3 30 1]).2.map (fun x => x.2.cb)) =
+    [[], [], [], [⟨1, 10, 1⟩]] := by decide
+
+/-- a heavy entry is evicted at once, together with everything older -/
+example : (run (new 4 3) [.add 1 10 1, .add 2 20 5, .keys]).2.map (fun x => (x.2.vals, x.2.cb)) =
+    [([0], []), ([2], [⟨1, 10, 1⟩, ⟨2, 20, 5⟩]), ([], [])] := by decide
+
+example : lastTouch (run (new 10 2) [.add 1 10 1, .add 2 20 1, .get 1]).2 1 = 3 := by decide
+
 end C29
